@@ -249,13 +249,15 @@ closed:
 		err = clnt.err
 	}
 	clnt.Unlock()
-	for ; r != nil; r = r.next {
+	for r != nil {
 		verifPoint("clnt.recv.fanout", clnt, r)
+		next := r.next // the woken caller recycles r and clears its links
 		r.Err = err
 		if r.Done != nil {
 			r.Done <- r
 		}
 		verifPoint("clnt.recv.fanout.sent", clnt, r)
+		r = next
 	}
 
 	clnts.Lock()
